@@ -252,6 +252,9 @@ func (pkg *pkg) Generate() (bool, error) {
 		for _, plugin := range pkg.plugins {
 			g := pkg.generators[plugin.Name()]
 			for _, typs := range g.ToGenerate() {
+				// Mark exactly the entry that is handed out, so that the loop makes progress
+				// even if the plugin marks another entry that these types are assignable to.
+				g.Generating(typs...)
 				if err := g.Generate(typs); err != nil {
 					return false, fmt.Errorf("Generator Error: %s:%v", plugin.Name(), err.Error())
 				}
